@@ -1,5 +1,6 @@
 /- line-protocol handlers for the Cmp / Sort models -/
 import PygModel.Native
+import PygModel.SortTable
 
 namespace Pyg.CmpDriver
 open Pyg
@@ -15,6 +16,14 @@ def cellsOf : Val → Option (List Cell)
 
 def natList (xs : List Nat) : Val := .list (xs.map fun (i : Nat) => .cell (.int (Int.ofNat i)))
 
+/-- C07-only wire spellings: `TS:<us>` (a `pd.Timestamp`) and `NS:<hex>` (a `np.str_`) are read as the datetime / string cells
+`T:` / `S:`.  `as_primitive` keeps these objects, but `cmp` ranks them with their base types (`datetime`, `str`) and python
+compares them natively with those by value, so the model has no separate cells for them. -/
+partial def normSexp : Sexp → Sexp
+  | .atom s => if s.startsWith "TS:" then .atom ("T:" ++ (s.drop 3).toString)
+               else if s.startsWith "NS:" then .atom ("S:" ++ (s.drop 3).toString) else .atom s
+  | .node xs => .node (xs.map normSexp)
+
 abbrev St := Unit
 def init : St := ()
 def modelName : String := "cmp"
@@ -29,6 +38,10 @@ def handle1 (op : String) (args : List Sexp) : Option String := do
       match ← Val.ofSexp a, ← Val.ofSexp b with
       | .cell x, .cell y =>
           pure (match x.native y with | some o => s!"ok I:{ordInt o}" | Option.none => "err TypeError")
+      | .tuple [.tuple xs, .cell (.int i)], .tuple [.tuple ys, .cell (.int j)] =>
+          -- the decorated `((k0, .., kn), i)` tuples of `dictable.sort`
+          let xs ← xs.mapM cellOf; let ys ← ys.mapM cellOf
+          pure (match nativeKeyId (xs, i.toNat) (ys, j.toNat) with | some o => s!"ok I:{ordInt o}" | Option.none => "err TypeError")
       | .tuple xs, .tuple ys =>
           let xs ← xs.mapM cellOf; let ys ← ys.mapM cellOf
           pure (match nativeArr xs ys with | some o => s!"ok I:{ordInt o}" | Option.none => "err TypeError")
@@ -41,6 +54,19 @@ def handle1 (op : String) (args : List Sexp) : Option String := do
       match ← Val.ofSexp keys with
       | .list ks => pure ("ok " ++ (natList (sortIdx ks)).render)
       | _ => Option.none
+  | "sortidxl", [keys, .atom _] =>
+      -- `d.sort([k0, k1, ...])`, the list-of-keys form: the property orders by the key columns as given (the flag only tells the
+      -- runner how to NAME the columns)
+      match ← Val.ofSexp keys with
+      | .list ks => pure ("ok " ++ (natList (sortIdx ks)).render)
+      | _ => Option.none
+  | "sorttable", [t, by_] =>
+      -- `dictable(t).sort(*by)` on the whole table (`Table.sortBy`): all columns come back
+      let t ← Table.ofVal (← Val.ofSexp t)
+      let by_ ← match ← Val.ofSexp by_ with
+        | .list xs => xs.mapM fun x => match x with | .cell (.str s) => some s | _ => Option.none
+        | _ => Option.none
+      pure (match t.sortBy by_ with | .ok r => "ok " ++ r.toVal.render | .error e => "err " ++ e.render)
   | "sortfn", [keys, .atom fn] =>
       -- `d.sort(f)` with a key FUNCTION of the columns: the sort key of a row is the 1-tuple `(f(row),)`
       match ← Val.ofSexp keys with
@@ -63,6 +89,6 @@ def handle1 (op : String) (args : List Sexp) : Option String := do
   | _, _ => Option.none
 
 def handle (s : St) (op : String) (args : List Sexp) : Option (St × String) :=
-  (handle1 op args).map fun r => (s, r)
+  (handle1 op (args.map normSexp)).map fun r => (s, r)
 
 end Pyg.CmpDriver
